@@ -92,6 +92,7 @@ def unit_seq_corr(args):
         g = gen.ProgGen(rng, runner, fam, p_read=p_read, p_miss=p_miss, p_ext=p_ext, p_invalid=p_invalid,
                         invalid_kinds=_invalid_kinds(fam))
         g.allow_extdel = True
+        g.allow_badroot = True
         state["g"] = g
         return g
 
@@ -208,6 +209,7 @@ def unit_seq_oracle(args):
             g = gen.ProgGen(rng, sh, fam, p_read=p_read, p_miss=p_miss, p_ext=p_ext, p_invalid=p_invalid,
                             invalid_kinds=_invalid_kinds(fam))
             g.allow_extdel = True
+            g.allow_badroot = True
             is_dict, ops = seq_setup(rng, g.vg, profile)
             g.resources = [(0, is_dict)]
             for op in ops:
